@@ -381,7 +381,7 @@ func (a *gemAst) alt(r *rand.Rand) string {
 			b.WriteString("-")
 		case i == 0 || i-1 == dash:
 			b.WriteString(t)
-		case a.segs[i-1].num != s.num && r.Intn(3) == 0:
+		case i >= 2 && a.segs[i-1].num != s.num && r.Intn(3) == 0:
 			b.WriteString(t) // digit/letter transition without a dot
 		default:
 			b.WriteString("." + t)
@@ -771,24 +771,54 @@ func (a *mavenAst) inLib() bool {
 	return a.nsep == 0 || ltDec(a.qnum, two63m1)
 }
 
-func (a *mavenAst) classes() []string {
-	if a.snap && a.qsep != 0 && releaseQual(a.qual) {
-		return []string{"finalsnapshot"}
+// knownQual: the qualifier (after the a/b/m shortcut) is one Maven orders below the release.
+func (a *mavenAst) knownQual() bool {
+	q := a.qual
+	if a.nsep == 't' && (q == "a" || q == "b" || q == "m") {
+		return true
 	}
-	return nil
+	switch q {
+	case "alpha", "beta", "milestone", "rc", "cr", "snapshot", "ga", "final", "release":
+		return true
+	}
+	return false
 }
 
-// alt: qualifier case, leading zeros, SNAPSHOT case.
-func (a *mavenAst) alt(r *rand.Rand) string {
+func (a *mavenAst) classes() []string {
+	var c []string
+	if a.snap && (a.qsep == 'h' || a.qsep == 't') && releaseQual(a.qual) {
+		c = append(c, "finalsnapshot")
+	}
+	if a.snap && (a.nsep == 'h' || a.nsep == 't') && a.qnum == "0" {
+		c = append(c, "zerosnapshot")
+	}
+	if a.qsep == 'd' && !a.knownQual() {
+		c = append(c, "dotunknown")
+	}
+	return c
+}
+
+// alt: qualifier case, SNAPSHOT case; with zeros, leading zeros on the numbers (value-preserving
+// for ComparableVersion, which strips them; the library keeps "00" distinct from "0": finding
+// F-C02-mvn-leading-zero, so such spellings are only produced for the dedicated stream).
+func (a *mavenAst) alt(r *rand.Rand) string { return a.altZ(r, false) }
+
+func (a *mavenAst) altZ(r *rand.Rand, zeros bool) string {
+	z := func(x string) string {
+		if zeros {
+			return lz(r, x)
+		}
+		return x
+	}
 	var n []string
 	for _, x := range a.nums {
-		n = append(n, lz(r, x))
+		n = append(n, z(x))
 	}
 	s := strings.Join(n, ".")
 	if a.qsep != 0 {
 		s += sepStr(a.qsep) + randCase(r, a.qual)
 		if a.nsep != 0 {
-			s += sepStr(a.nsep) + lz(r, a.qnum)
+			s += sepStr(a.nsep) + z(a.qnum)
 		}
 	}
 	if a.snap {
